@@ -11,6 +11,8 @@ var entityKinds = []string{"whe", "wen", "waj", "wax", "wj", "whj", "whx", "wse"
 var statusKinds = []string{"wh", "wes", "we", "whe", "wen", "waj", "wax", "wj", "whj", "whx", "wse"}
 var valueKinds = []string{"nil", "str", "str", "item", "item", "map", "chan", "badtail", "nilptr", "svcerr", "int", "slice"}
 
+var takesStatus = map[string]bool{"wh": true, "wes": true, "we": true, "wse": true, "whe": true, "whj": true, "whx": true}
+
 func genSize(r *rng.R) int {
 	switch r.Intn(10) {
 	case 0:
@@ -92,8 +94,21 @@ func silentEntity(r *rng.R, pretty bool, acc string) (Op, bool) {
 // sets the status, then only Write / setters / calls that write nothing); 20 % are free.
 func GenSeq(r *rng.R) Seq {
 	var s Seq
-	switch r.Intn(10) {
-	case 0, 1, 2, 3:
+	switch r.Intn(11) {
+	case 0, 1, 2:
+		s.Mode = "direct"
+	case 3:
+		// a request that FAILS route selection: whoever answers it (the container's default
+		// ServiceErrorHandler, or one the application installed, which may write anything) does so
+		// on the Response the container filters observe
+		s.Mode = "route-miss"
+		s.Miss = MissKinds[r.Intn(len(MissKinds))]
+		s.JSR = r.Chance(1, 2)
+		s.Handler = "custom"
+		if r.Chance(1, 3) {
+			s.Handler = "default"
+		}
+	case 10:
 		s.Mode = "direct"
 	case 4:
 		s.Mode = "direct-gzip"
@@ -164,6 +179,25 @@ func GenSeq(r *rng.R) Seq {
 		}
 	}
 	s.Fail = FailSpec{From: -1}
+	if s.Handler == "default" {
+		// the container's own handler: its one call is measured, its returned error is not observable
+		code, n := MissFacts(s.Miss, s.JSR)
+		s.Stream = "main"
+		s.Ops = []Op{{Kind: "wes", Status: code, N: n}}
+		return s
+	}
+	if r.Chance(3, 20) {
+		// a bottom writer that refuses a body after 1xx/204/304 like net/http's; half of these cases
+		// are steered towards such a status
+		s.Fail.HTTPLike = true
+		if r.Chance(1, 2) {
+			for i := range s.Ops {
+				if o := &s.Ops[i]; takesStatus[o.Kind] {
+					o.Status = []int{204, 304, 100, 101, 199, 204}[r.Intn(6)]
+				}
+			}
+		}
+	}
 	if r.Chance(11, 20) {
 		s.Fail.From = r.Intn(4)
 		if r.Chance(1, 3) {
@@ -180,6 +214,10 @@ func GenSeq(r *rng.R) Seq {
 			s.Fail.Partial = r.Intn(5000)
 		}
 		s.Fail.Transient = r.Chance(3, 10)
+		if r.Chance(2, 5) {
+			// the error VALUE: one of net/http's, io's, net's own instead of a private one
+			s.Fail.Err = ErrValues[r.Intn(len(ErrValues))]
+		}
 	}
 	return s
 }
